@@ -42,12 +42,14 @@ class CodeError(RuntimeError):
       end_lineno = getattr(cause, 'end_lineno', lineno)
     elif not isinstance(cause, TimeoutError):
       tb = sys.exc_info()[2]
-      frames = traceback.extract_tb(tb, limit=5)
+      frames = traceback.extract_tb(tb)
       for f in frames:
+        # Use the innermost frame of the generated code: the line that raised
+        # (e.g. inside a function or class body), not the statement that led
+        # to it.
         if not f.filename or f.filename == '<string>':
           lineno = f.lineno
           end_lineno = lineno
-          break
     self.lineno = lineno
     self.end_lineno = end_lineno
 
